@@ -214,13 +214,18 @@ const RESOURCES: [&str; 14] = ["pack.png", "log4j2.xml", "version.json", "assets
 const SIGNATURES: [&str; 9] = ["META-INF/MOJANGCS.SF", "META-INF/MOJANGCS.RSA", "META-INF/OLDKEY.DSA", "META-INF/CURVE.EC", "META-INF/CODESIGN.SF", "META-INF/sub/NESTED.SF", "META-INF/lower.sf", "META-INF/SIG-EXTRA", "META-INF/lower.rsa"];
 const DIRS: [&str; 8] = ["META-INF/", "net/", "net/minecraft/", "assets/", "assets/minecraft/", "com/", "com/google/", "data/"];
 
-pub struct Planned { pub pair: Pair, pub cats: Vec<(String, Cat, Option<[Shape; 3]>)>, pub emit_failures: u32 }
+pub struct Planned { pub pair: Pair, pub cats: Vec<(String, Cat, Option<[Shape; 3]>)>, pub emit_failures: u32, /// entries of more than 32 KiB of incompressible bytes (classes with a big opaque attribute, resources)
+    pub big_entries: u32 }
+
+/// 36..150 KiB of pseudo-random (incompressible) bytes: a Deflate-compressed zip entry of that content is longer than the
+/// 32 KiB window / the buffers of the readers in between, so that one `read` call does not deliver it
+fn big_blob(rng: &mut Rng) -> Vec<u8> { let n = rng.usize_in(36 * 1024, 150 * 1024); let mut v = Vec::with_capacity(n + 8); while v.len() < n { v.extend_from_slice(&rng.next_u64().to_le_bytes()); } v.truncate(n); v }
 
 pub fn gen_pair(rng: &mut Rng, pc: &PairCfg) -> Planned {
     let cfg = gen_cfg();
     let (mut client, mut server) = (JarSpec::default(), JarSpec::default());
     let mut used = HashSet::new();
-    let mut cats = vec![]; let mut emit_failures = 0;
+    let mut cats = vec![]; let mut emit_failures = 0; let mut big_entries = 0u32;
     let n_classes = rng.usize_in(pc.classes.0, pc.classes.1);
     for _ in 0..n_classes {
         let cat = match rng.below(12) { 0 | 1 => Cat::ClientOnly, 2 | 3 => Cat::ServerOnly, 4 | 5 => Cat::Identical, 6 => Cat::SameFactsOtherBytes, _ => Cat::Differing };
@@ -230,6 +235,8 @@ pub fn gen_pair(rng: &mut Rng, pc: &PairCfg) -> Planned {
         let lens = |rng: &mut Rng| if rng.chance(1, 8) { 0 } else { rng.usize_in(0, pc.list_max) };
         let (nf, nm, ni) = (lens(rng), lens(rng), if rng.bool() { 0 } else { rng.usize_in(0, pc.list_max.min(5)) });
         let mut base = if pc.simple_classes && !rng.chance(1, 5) { simple_class(rng, &stem, nf, nm, ni) } else { rich_class(rng, &cfg, &stem, nf, nm, ni) };
+        // one class in 50 carries a big opaque (unknown) attribute: the class file is > 32 KiB and does not compress
+        if rng.chance(1, 50) { let blob = big_blob(rng); base.unknown.push((cf::model::JS::new("org.example.Blob"), cf::model::Bytes(blob))); big_entries += 1; }
         let premarked = pc.premark > 0 && rng.chance(1, pc.premark);
         if premarked { premark_class(rng, &mut base, 3); }
         let push = |jar: &mut JarSpec, rng: &mut Rng, model: &Class, bytes: Vec<u8>| jar.entries.push(Entry { name: name.clone(), item: Item::Class(ClassSide { model: model.clone(), bytes }), deflate: rng.bool() });
@@ -263,7 +270,7 @@ pub fn gen_pair(rng: &mut Rng, pc: &PairCfg) -> Planned {
     let n_res = rng.usize_in(pc.resources.0, pc.resources.1);
     let mut names: Vec<&str> = RESOURCES.to_vec(); rng.shuffle(&mut names);
     for name in names.into_iter().take(n_res) {
-        let data = res_bytes(rng);
+        let data = if rng.chance(1, 30) { big_entries += 1; big_blob(rng) } else { res_bytes(rng) };
         let mode = rng.below(if pc.differing_resources { 5 } else { 3 });
         let e = |d: Vec<u8>, rng: &mut Rng| Entry { name: name.to_string(), item: Item::Res(d), deflate: rng.bool() };
         match mode {
@@ -295,5 +302,5 @@ pub fn gen_pair(rng: &mut Rng, pc: &PairCfg) -> Planned {
         match rng.below(3) { 0 => client.entries.push(e()), 1 => server.entries.push(e()), _ => { client.entries.push(e()); server.entries.push(e()); } }
     }
     rng.shuffle(&mut client.entries); rng.shuffle(&mut server.entries);
-    Planned { pair: Pair { client, server }, cats, emit_failures }
+    Planned { pair: Pair { client, server }, cats, emit_failures, big_entries }
 }
